@@ -49,10 +49,30 @@ Fixpoint assoc_field (k : N) (fs : list (N * bytes)) : option bytes :=
    scripts with the language declared for them) *)
 Definition langs_used (b : builder) : list lang := map w_lang (all_witnesses b).
 
-(* the witness set a caller of the stand-alone helper would emit for the same redeemers and datums *)
-Definition helper_witness_set (r : redeemers) (d : option plutus_list) : witness_set :=
-  let w := set_redeemers ws_new r in
+(* the witness set a caller of the stand-alone helper would emit for the same redeemers and datums, next to whatever
+   key / bootstrap witnesses it carries *)
+Definition helper_witness_set_with (vk bo : option bytes) (r : redeemers) (d : option plutus_list) : witness_set :=
+  let w := match vk with Some v => set_vkeys ws_new v | None => ws_new end in
+  let w := match bo with Some v => set_bootstraps w v | None => w end in
+  let w := set_redeemers w r in
   match d with Some l => set_plutus_data w l | None => w end.
+Definition helper_witness_set := helper_witness_set_with None None.
+
+(* languages of registered-but-not-emitted Plutus witnesses (inputs / collateral added again as key inputs) that
+   calc_script_data_hash counts: those of an input builder that also returns at least one witness *)
+Definition stale_in_gen (counted : bool) (s : sub_state) : list lang :=
+  if counted && negb (is_nil (ss_witnesses s)) then ss_stale s else [].
+Definition stale_sub_gen (counted : bool) (s : sub_state) : list lang := if counted then ss_stale s else [].
+Definition stale_langs_gen (counted : bool) (b : builder) : list lang :=
+  stale_in_gen counted (b_in b) ++ stale_in_gen counted (b_col b) ++ stale_sub_gen counted (b_mi b) ++
+  stale_sub_gen counted (b_ce b) ++ stale_sub_gen counted (b_wd b) ++ stale_sub_gen counted (b_vo b) ++
+  stale_sub_gen counted (b_pr b).
+Definition stale_langs := stale_langs_gen stale_langs_counted.
+(* known class C09-stale-input-language: some stale witness's language is used by no emitted witness, so
+   calc_script_data_hash puts a language view into the hash that no script of the transaction uses *)
+Definition known_stale_lang_gen (counted : bool) (b : builder) : bool :=
+  existsb (fun l => negb (mem_lang l (langs_used b))) (stale_langs_gen counted b).
+Definition known_stale_lang := known_stale_lang_gen stale_langs_counted.
 
 (* ------------------------------------------------------------------ premises / classes (decidable) *)
 
@@ -228,7 +248,9 @@ Definition judge_builder (ops : list op) (tx_bytes : bytes) : verdict :=
           if is_ok (calc_script_data_hash H b0 cm) && (has_script_items b0 || is_none (b_script_data_hash b0)) then
             if opt_bytes_eqb (v_script_data_hash v)
                  (ledger_script_integrity H (v_redeemers v) (v_datums v) (langs_used b) cm)
-            then Holds else Fails 0
+            then Holds
+            else if known_stale_lang b0 && opt_bytes_eqb (v_script_data_hash v) (b_script_data_hash b) then Fails 3
+            else Fails 0
           else NotApplicable
       | None => NotApplicable
       end
